@@ -1,1 +1,3 @@
 import DrandProofs.C16
+import DrandProofs.C17
+import DrandProofs.C18
